@@ -327,7 +327,12 @@ def gen_import(args):
                         for drop in (["none"] if malformed else ["none", "time", "id", "parent_id", "pos", "badcol"]):
                             for mk, ne in (variants if drop == "none" else variants[:1]):
                                 yield {"R": R, "idn": list(idn), "par": list(par), "time": list(time), "kind": kind,
-                                       "drop": drop, "mapkind": mk, "noneenc": ne}
+                                       "drop": drop, "mapkind": mk, "noneenc": ne, "lincol": 0}
+                            if not malformed:
+                                # a source lineage-id column: 1 consistent, 2 one id for every row, 3 one id per row
+                                for lc in (1, 2, 3):
+                                    yield {"R": R, "idn": list(idn), "par": list(par), "time": list(time), "kind": kind,
+                                           "drop": "none", "mapkind": variants[0][0], "noneenc": variants[0][1], "lincol": lc}
 
 
 def run_import(x):
@@ -371,6 +376,19 @@ def run_import(x):
         df["trk"] = [40 + min(idn.index(k) for k in seg[idn[r]]) + 1 for r in range(R)]
         nm["track_id"] = "trk"
         x["tidcol"] = 1
+    x.setdefault("lincol", 0)
+    if x["lincol"] and x["tidcol"]:
+        comp = {k: {k} for k in idn}
+        for r in range(R):
+            if parr[r] != 0:
+                merged = comp[parr[r]] | comp[idn[r]]
+                for k in merged:
+                    comp[k] = merged
+        df["lin"] = {1: [70 + min(idn.index(k) for k in comp[idn[r]]) + 1 for r in range(R)],
+                     2: [70] * R, 3: [70 + r + 1 for r in range(R)]}[x["lincol"]]
+        nm["lineage_id"] = "lin"
+    else:
+        x["lincol"] = 0
     if x["drop"] in ("time", "id", "parent_id", "pos"):
         del nm[x["drop"]]
     elif x["drop"] == "badcol":
@@ -379,7 +397,7 @@ def run_import(x):
         tr = tracks_from_df(df, node_name_map=nm)
     except ValueError:
         x["err"] = "ValueError"
-        x["nodes"], x["edges"], x["tids"] = [], [], []
+        x["nodes"], x["edges"], x["tids"], x["lids"] = [], [], [], []
         return x
     g = tr.graph
     nodes = []
@@ -391,6 +409,7 @@ def run_import(x):
                       int(a["custom"]) if a.get("custom") is not None else -1])
     x["err"] = "ok"
     x["tids"] = [[int(n), int(a["track_id"]) if a.get("track_id") is not None else -1] for n, a in g.nodes(data=True)]
+    x["lids"] = [[int(n), int(a["lineage_id"]) if a.get("lineage_id") is not None else -1] for n, a in g.nodes(data=True)]
     x["nodes"] = nodes
     x["edges"] = [[int(u), int(v)] for u, v in g.edges]
     return x
@@ -398,7 +417,8 @@ def run_import(x):
 
 # ------------------------------------------------------------------------------- C12: name map validation
 MV = {"tm": ["ok", "none", "bad", "absent"], "idm": ["ok", "absent"],
-      "pos": ["absent", "yx", "y", "empty", "none", "str", "ybad"], "leg": ["absent", "yx", "x"],
+      "pos": ["absent", "yx", "y", "empty", "none", "str", "ybad"],
+      "leg": ["absent", "yx", "x", "zyx", "zbad", "ybad3"],
       "cu": ["absent", "ok", "bad", "none", "empty"], "ax": ["absent", "two", "three", "str"],
       "seg": [False, True], "em": ["nomap", "empty", "iou", "collide"]}
 
@@ -422,6 +442,10 @@ def mv_maps(m):
     if m["leg"] == "yx":
         nm["y"], nm["x"] = "y", "x"
     elif m["leg"] == "x":
+        nm["x"] = "x"
+    elif m["leg"] in ("zyx", "zbad", "ybad3"):
+        nm["z"] = "nocol" if m["leg"] == "zbad" else "a"
+        nm["y"] = "nocol" if m["leg"] == "ybad3" else "y"
         nm["x"] = "x"
     cv = {"ok": "c", "bad": "nocol", "none": None, "empty": []}
     if m["cu"] != "absent":
@@ -452,7 +476,8 @@ def run_mapvalid(x):
     x["keys"] = sorted(b.node_name_map)
     # end to end (no edge map argument in this entry point): the same node map through tracks_from_df
     x["e2e"] = ""
-    if m["em"] == "nomap" and m["ax"] == "absent" and m["pos"] != "str":
+    three = m["pos"] == "absent" and m["leg"] in ("zyx", "zbad", "ybad3")
+    if m["em"] == "nomap" and m["ax"] == "absent" and m["pos"] != "str" and not (three and m["seg"]):
         seg = np.zeros((2, 2, 2), dtype=np.uint16)
         seg[0, 0, 0], seg[1, 0, 1] = 1, 2
         try:
